@@ -1,5 +1,6 @@
 use crate::{
-    ContextSelectionSet, OutputType, Positioned, ServerResult, Value, extensions::ResolveInfo,
+    ContextSelectionSet, OutputType, Positioned, ServerError, ServerResult, Value,
+    extensions::ResolveInfo,
     parser::types::Field,
 };
 
@@ -33,7 +34,7 @@ pub async fn resolve_list<'a, T: OutputType + 'a>(
                         OutputType::resolve(&item, &ctx_idx, field)
                             .await
                             .map(Option::Some)
-                            .map_err(|err| ctx_idx.set_error_path(err))
+                            .map_err(|err| set_item_error_path(&ctx_idx, err))
                     };
                     futures_util::pin_mut!(resolve_fut);
                     extensions
@@ -53,11 +54,21 @@ pub async fn resolve_list<'a, T: OutputType + 'a>(
             futures.push(async move {
                 OutputType::resolve(&item, &ctx_idx, field)
                     .await
-                    .map_err(|err| ctx_idx.set_error_path(err))
+                    .map_err(|err| set_item_error_path(&ctx_idx, err))
             });
         }
         Ok(Value::List(
             futures_util::future::try_join_all(futures).await?,
         ))
+    }
+}
+
+/// Attach the list item's path to an error that does not carry one yet; an
+/// error raised by a field nested below the item keeps its own, longer path.
+fn set_item_error_path(ctx_idx: &ContextSelectionSet<'_>, err: ServerError) -> ServerError {
+    if err.path.is_empty() {
+        ctx_idx.set_error_path(err)
+    } else {
+        err
     }
 }
